@@ -127,7 +127,19 @@ EffFmt(fmt, s) == IF IdLineSecond(fmt) /\ SecondLineSlash(s) THEN SubSeq(fmt, 1,
                   ELSE IF IdLineFirst(fmt) THEN fmt[1].body \o Tail(fmt)
                   ELSE IF IdAlts(fmt) THEN <<[fmt[1] EXCEPT !.alts = SubSeq(@, 1, fmt[1].idn)]>> \o Tail(fmt)
                   ELSE fmt
-InLanguage(f, s) == (Len(s) + 1) \in MSeq(s, EffFmt(f.fmt, s), 1, {1}) /\ (f.slash => NoSlashEdge(s))
+\* side conditions the format notation does not carry.  "idx<=tot" (28D, 5n/5n): both numbers are positive and the
+\* index does not exceed the total
+RECURSIVE NumVal(_, _, _)
+NumVal(s, a, b) == IF a > b THEN 0 ELSE NumVal(s, a, b - 1) * 10 + DigitVal(s[b])
+SlashPos(s) == CHOOSE i \in 1..Len(s) : s[i] = "/"
+Side(f, s) == CASE f.side = "idx<=tot" -> LET q == SlashPos(s)
+                                              i == NumVal(s, 1, q - 1)
+                                              t == NumVal(s, q + 1, Len(s))
+                                          IN i >= 1 /\ t >= 1 /\ i <= t
+                [] OTHER -> TRUE
+InLanguage(f, s) == /\ (Len(s) + 1) \in MSeq(s, EffFmt(f.fmt, s), 1, {1})
+                    /\ (f.slash => NoSlashEdge(s))
+                    /\ Side(f, s)
 
 (* ------------------------------- generator ------------------------------- *)
 Pattern(cls) == CASE cls = "n" -> <<"1", "2", "3", "4", "5", "6", "7", "8", "9", "0">>
@@ -300,9 +312,9 @@ First(fmt) == IF fmt[1].k = "opt" /\ Len(fmt[1].body) = 3 /\ fmt[1].body[1].k = 
 SlashLine(c) == c.k = "opt" /\ Len(c.body) = 3 /\ c.body[1].k = "lit" /\ c.body[1].ch = "/" /\ c.body[3].k = "nl"
 IdLine(fmt) == IF SlashLine(fmt[1]) THEN 1
                ELSE IF Len(fmt) >= 3 /\ fmt[2].k = "nl" /\ SlashLine(fmt[3]) THEN 2 ELSE 0
-F(tag, fmt)  == [tag |-> tag, fmt |-> fmt, slash |-> FALSE, amt |-> FALSE]
-FS(tag, fmt) == [tag |-> tag, fmt |-> fmt, slash |-> TRUE,  amt |-> FALSE]
-FA(tag, fmt) == [tag |-> tag, fmt |-> fmt, slash |-> FALSE, amt |-> TRUE]
+F(tag, fmt)  == [tag |-> tag, fmt |-> fmt, slash |-> FALSE, amt |-> FALSE, side |-> "none"]
+FS(tag, fmt) == [tag |-> tag, fmt |-> fmt, slash |-> TRUE,  amt |-> FALSE, side |-> "none"]
+FA(tag, fmt) == [tag |-> tag, fmt |-> fmt, slash |-> FALSE, amt |-> TRUE,  side |-> "none"]
 
 Codes13C == {<<"S", "N", "D", "T", "I", "M", "E">>, <<"C", "L", "S", "T", "I", "M", "E">>, <<"R", "N", "C", "T", "I", "M", "E">>,
              <<"R", "E", "J", "T", "I", "M", "E">>, <<"C", "U", "T", "T", "I", "M", "E">>}
@@ -331,6 +343,9 @@ Formats == {
   F("26T", <<Cl("c", 3, 3)>>),
   F("28",  <<Cl("n", 1, 5), Opt(<<Lit("/"), Cl("n", 1, 2)>>)>>),
   F("28C", <<Cl("n", 1, 5), Opt(<<Lit("/"), Cl("n", 1, 5)>>)>>),
+  \* message index / total: the typical content is 12345/12345; a shorter total with the typical index is
+  \* out of the language by the side condition, a shorter index is in it
+  [F("28D", <<Cl("n", 1, 5), Lit("/"), Cl("n", 1, 5)>>) EXCEPT !.side = "idx<=tot"],
   F("30",  <<Sem("DATE", 6)>>),
   FA("32A", <<Sem("DATE", 6), Sem("CUR", 3), Sem("AMT", 15)>>),
   FA("32B", <<Sem("CUR", 3), Sem("AMT", 15)>>),
@@ -383,7 +398,7 @@ Formats == {
 }
 
 (* field types with formats the algebra does not express faithfully (listed as not covered):
-   23 (days allowed for one function only), 28D (index <= total), 77T (9000z) *)
+   23 (the documented 3!a[2!n]11x and the documented function codes do not fit together), 77T (9000z) *)
 
 VARIABLES fld, content
 vars == <<fld, content>>
